@@ -2,7 +2,7 @@
 C02, group `gpossub`: non-vacuity examples (a concrete valid input per modelled function decodes
 to `.ok`) and the evaluated aliasing family of `readGpos2_1`.
 -/
-import SfntV.Proofs.TotalGposSubCost
+import SfntV.Proofs.TotalGposSub51
 
 namespace SfntV.Total.GposSub
 open SfntV SfntV.Total SfntV.Total.Otl
@@ -56,6 +56,34 @@ example : (readSubtableOld [0xff,0xed, 0,10, 0,5, 0,100, 0xff,0xf6, 0,1, 0,2, 0,
 example : (readSubtableOld [0,11, 0,10, 0,0, 0,0, 0,0, 0,1, 0,0] 0 1).isOk = true ∧
     errOf (readSubtable [0,11, 0,10, 0,0, 0,0, 0,0, 0,1, 0,0] 0 1) = "invalid" := by
   decide +kernel
+
+/-! ## GPOS 5.1 -/
+
+/-- GPOS 5.1: one mark (class 0), one ligature with two components and one mark class; the second
+component has no anchor (offset 0) -/
+def ex51 : Bytes := [0,1, 0,12, 0,18, 0,1, 0,24, 0,36] ++ [0,1, 0,1, 0,5] ++ [0,1, 0,1, 0,100] ++
+  [0,1, 0,0, 0,6, 0,1, 0,7, 0,8] ++ [0,1, 0,4, 0,2, 0,6, 0,0, 0,1, 0,9, 0,10]
+
+example : costOf (read51 ex51 0) = some ⟨25, 15⟩ := by decide +kernel
+example : (readSubtable ex51 0 5).isOk = true := by decide +kernel
+
+/-- the site of a panic ("" when the outcome is not a panic) -/
+def panicSite : Outcome α → String
+  | .panic s => s
+  | _ => ""
+
+/-- a 40-byte GPOS 5.1 subtable with markClassCount = 2 > ligCount = 1 whose LigatureAttach offset
+is 0 (so `offsets[0] = 0` is skipped and `offsets[1]` is evaluated) -/
+def ex51old : Bytes := [0,1, 0,12, 0,18, 0,2, 0,24, 0,36] ++ [0,1, 0,1, 0,5] ++ [0,1, 0,1, 0,100] ++
+  [0,1, 0,0, 0,6, 0,1, 0,7, 0,8] ++ [0,1, 0,0]
+
+/-- FINDING (repaired in /repo 33f30d8): the code before the repair indexed the LigatureArray's
+per-ligature `offsets` (length ligCount) with the mark class: index out of range at
+gpos5.go:109 `offsets[j]`.  The repaired reader answers with an error (the two anchor offsets of
+the component record are not there). -/
+theorem read51Old_panics :
+    ex51old.length = 40 ∧ panicSite (read51Old ex51old 0) = "gpos5.go:109#offsets[j]" ∧
+      errOf (read51 ex51old 0) = "io" := by decide +kernel
 
 /-! ## the aliasing family of GPOS 2.1
 
